@@ -155,8 +155,29 @@ def make (c):
                 loads.append (dict (k = 'rlc', R = float (10 ** rng.uniform (-1, 3)), L = float (10 ** rng.uniform (-8, -5)), C = None if rng.random () < 0.5 else float (10 ** rng.uniform (-12, -9)), att = att))
             elif kind == 'trap':
                 loads.append (dict (k = 'trap', R = float (10 ** rng.uniform (-1, 1)), L = float (10 ** rng.uniform (-7, -5)), C = float (10 ** rng.uniform (-12, -10)), att = att))
-            else:
+            elif rng.random () < 0.5:
                 loads.append (dict (k = 'lap', a = [1.0, float (10 ** rng.uniform (-9, -7))], b = [float (10 ** rng.uniform (0, 2)), float (10 ** rng.uniform (-7, -5))], att = att))
+            else:
+                # two or three traps in series folded into one rational function: order four to six
+                w_ = 2 * np.pi * spec ['f'] * 1e6
+                a_, b_ = np.array ([1.0]), np.array ([0.0])
+                for j in range (int (rng.integers (2, 4))):
+                    R, L = float (10 ** rng.uniform (-1, 1)), float (10 ** rng.uniform (-7, -5))
+                    x    = float (rng.choice ([rng.uniform (0.05, 0.6), rng.uniform (1.6, 8)]))      # w^2 L C away from resonance
+                    C    = x / (w_ * w_ * L)
+                    ta, tb = np.array ([1.0, R * C, L * C]), np.array ([R, L])
+                    b_ = np.polynomial.polynomial.polyadd (np.polynomial.polynomial.polymul (b_, ta), np.polynomial.polynomial.polymul (tb, a_))
+                    a_ = np.polynomial.polynomial.polymul (a_, ta)
+                n_ = max (len (a_), len (b_))
+                loads.append (dict (k = 'lap', a = [float (x) for x in a_] + [0.0] * (n_ - len (a_)), b = [float (x) for x in b_] + [0.0] * (n_ - len (b_)), att = att))
+    # the same load attached more than once to a pulse counts as often
+    for l in loads:
+        if 'att' in l and rng.random () < 0.25:
+            if l ['att'][0][0] == 'all':
+                l ['att'] = l ['att'] + [[1, l ['att'][0][1]] if len (l ['att'][0]) > 1 else [1]]
+            else:
+                l ['att'] = l ['att'] + [list (l ['att'][0])] * int (rng.integers (1, 3))
+            spec ['dupatt'] = True
     spec ['loads'] = loads
     spec ['lclass'] = cls
     spec ['version'] = str (rng.choice (['9', '12', '13']))
@@ -339,6 +360,9 @@ def check (c):
                 amp_ = max (amp_, 3.0 / max (abs (1 - w_ * w_ * l ['L'] * l ['C']), 1e-9))
             elif l ['k'] == 'rlc' and l.get ('L') and l.get ('C'):
                 amp_ = max (amp_, 3.0 * (w_ * l ['L'] + 1 / (w_ * l ['C'])) / max (abs (complex (l.get ('R') or 0.0, w_ * l ['L'] - 1 / (w_ * l ['C']))), 1e-9))
+            elif l ['k'] == 'lap':
+                from pmv.props import c15
+                amp_ = max (amp_, 3.0 * c15.lap_cond (l, m.f))
         for i in want:
             if abs (want [i] - got [i]) > 1e-4 * amp_ * max (wabs [i], 1e-300) + 1e-9:
                 bad ('loads', 'load-value', 'pulse %d: load %r written as %r' % (i + 1, want [i], got [i]))
